@@ -201,10 +201,14 @@ type StreamEv struct {
 	Lost  bool   // emitted while the gateway was not subscribed
 	After *State // announced state after this entry (nil after delete)
 	// client-side rendering helpers
-	Idx     int
-	Val     Val
-	Changed map[string]*Val // nil value pointer = delete action
-	Derived bool            // produced by a reset/query answer rather than by the service directly
+	Idx      int
+	Val      Val
+	Changed  map[string]*Val // nil value pointer = delete action
+	Derived  bool            // produced by a reset/query answer rather than by the service directly
+	EmitStep int
+	EmitCut  int
+	DlvCut   int // -1 until delivered to the gateway
+	DlvSeq   uint64
 }
 
 // Variant is one (name, normalised query) resource.
@@ -323,6 +327,7 @@ func (w *World) lookup(rid string) (*Res, *Variant) {
 // announce appends an event to the variant's stream and applies it.
 func (v *Variant) announce(ev *StreamEv, subscribed bool) {
 	ev.Pos = len(v.Stream)
+	ev.DlvCut = -1
 	ev.Lost = !subscribed
 	if v.Announced != nil {
 		st := v.Announced.clone()
